@@ -5,7 +5,14 @@ package sim
 
 import (
 	"context"
+	"errors"
 	"fmt"
+	"sync/atomic"
+
+	"github.com/ipfs/go-cid"
+
+	"berty.tech/go-ipfs-log/accesscontroller"
+	idp "berty.tech/go-ipfs-log/identityprovider"
 
 	"pgregory.net/rapid"
 
@@ -39,7 +46,20 @@ type Prog struct {
 	Clocks   []int `json:"clocks,omitempty"` // initial clock time per replica (LogOptions.Clock)
 }
 
+// toggleAC is a permissive access controller that can be told to deny everything (for "appenddenied").
+type toggleAC struct{ deny atomic.Bool }
+
+var errDenied = errors.New("denied by the harness access controller")
+
+func (a *toggleAC) CanAppend(accesscontroller.LogEntry, idp.Interface, accesscontroller.CanAppendAdditionalContext) error {
+	if a.deny.Load() {
+		return errDenied
+	}
+	return nil
+}
+
 type Replica struct {
+	AC      *toggleAC
 	Log     *ipfslog.IPFSLog
 	Model   world.Set
 	Writer  int
@@ -117,7 +137,7 @@ func Gen(t *rapid.T, cfg GenConfig) Prog {
 	p.Codec = rapid.SampledFrom(cfg.Codecs).Draw(t, "codec")
 	kinds := []string{"append", "append", "append", "append", "append", "append", "join", "join", "join", "join", "selfjoin", "joinempty", "joinother"}
 	if !cfg.NoBadJoin {
-		kinds = append(kinds, "joinbad", "joinbad")
+		kinds = append(kinds, "joinbad", "joinbad", "appenddenied", "appendfail")
 	}
 	for i := 0; i < cfg.AppendBias; i++ {
 		kinds = append(kinds, "append")
@@ -135,7 +155,7 @@ func Gen(t *rapid.T, cfg GenConfig) Prog {
 	for i := 0; i < nops; i++ {
 		op := Op{Kind: rapid.SampledFrom(kinds).Draw(t, "kind"), A: rapid.IntRange(0, n-1).Draw(t, "a")}
 		switch op.Kind {
-		case "append":
+		case "append", "appenddenied", "appendfail":
 			op.Payload = rapid.StringMatching(`[a-z]{1,3}`).Draw(t, "payload")
 			op.PC = rapid.SampledFrom(PointerCounts).Draw(t, "pc")
 		case "join":
@@ -175,15 +195,16 @@ func New(tb ev.TB, p *Prog) *World {
 		if i < len(p.Writers) {
 			wr = p.Writers[i]
 		}
-		var lo *ipfslog.LogOptions
+		ac := &toggleAC{}
+		lo := &ipfslog.LogOptions{AccessController: ac}
 		if i < len(p.Clocks) && p.Clocks[i] > 0 {
-			lo = &ipfslog.LogOptions{Clock: entry.NewLamportClock(world.Identity(wr).PublicKey, p.Clocks[i])}
+			lo.Clock = entry.NewLamportClock(world.Identity(wr).PublicKey, p.Clocks[i])
 		}
 		l, err := world.NewLog(w.Store.API(), wr, LogID, w.Order, w.IO, lo)
 		if err != nil {
 			tb.Fatalf("harness: NewLog: %v", err)
 		}
-		w.Reps = append(w.Reps, &Replica{Log: l, Model: world.Set{}, Writer: wr})
+		w.Reps = append(w.Reps, &Replica{AC: ac, Log: l, Model: world.Set{}, Writer: wr})
 	}
 	return w
 }
@@ -232,6 +253,26 @@ func (w *World) Exec(tb ev.TB, idx int, op Op, sync bool) *OpInfo {
 			r.Model.Union(src.Model)
 			r.History = append(r.History, "j"+src.Model.Key())
 		}
+	case "appenddenied":
+		// an append the access controller refuses: must fail and leave the log as it was
+		r.AC.deny.Store(true)
+		_, err := r.Log.Append(w.Ctx, []byte(op.Payload), &ipfslog.AppendOptions{PointerCount: op.PC})
+		r.AC.deny.Store(false)
+		info.Err = err
+		info.Refused = true
+	case "appendfail":
+		// an append whose block write fails: must fail and leave the log as it was
+		target := w.Store.NumAdds()
+		w.Store.SetAddFail(func(nth int, _ cid.Cid) error {
+			if nth == target {
+				return errors.New("injected block write failure")
+			}
+			return nil
+		})
+		_, err := r.Log.Append(w.Ctx, []byte(op.Payload), &ipfslog.AppendOptions{PointerCount: op.PC})
+		w.Store.SetAddFail(nil)
+		info.Err = err
+		info.Refused = true
 	case "joinbad":
 		// a merge that must be refused: the source log with one candidate entry stripped of its signature
 		b := mod(op.B, n)
@@ -297,7 +338,7 @@ func (w *World) Exec(tb ev.TB, idx int, op Op, sync bool) *OpInfo {
 		r.Writer = mod(op.B, world.MaxWriters)
 		r.Log.SetIdentity(world.Identity(r.Writer))
 	case "rebuild":
-		opts := &ipfslog.LogOptions{Entries: r.Log.GetEntries(), Clock: entry.NewLamportClock(r.Log.Clock.GetID(), r.Log.Clock.GetTime())}
+		opts := &ipfslog.LogOptions{AccessController: r.AC, Entries: r.Log.GetEntries(), Clock: entry.NewLamportClock(r.Log.Clock.GetID(), r.Log.Clock.GetTime())}
 		if op.Flag%2 == 0 {
 			opts.Heads = r.Log.Heads().Slice()
 		}
@@ -310,7 +351,7 @@ func (w *World) Exec(tb ev.TB, idx int, op Op, sync bool) *OpInfo {
 		if len(r.Model) == 0 {
 			break
 		}
-		lo := &ipfslog.LogOptions{ID: LogID, SortFn: world.SortFn(w.Order), IO: w.IO}
+		lo := &ipfslog.LogOptions{ID: LogID, SortFn: world.SortFn(w.Order), IO: w.IO, AccessController: r.AC}
 		var l *ipfslog.IPFSLog
 		var err error
 		switch op.Flag % 3 {
